@@ -444,6 +444,12 @@ class Compiler(object):
                 resolved_member = self.resolve_type_descriptor(member,
                                                                module_name)
 
+                if resolved_member['type'] == 'BOOLEAN':
+                    # A default value given for a referenced type is
+                    # not converted by the parser.
+                    if member['default'] in ['TRUE', 'FALSE']:
+                        member['default'] = (member['default'] == 'TRUE')
+
                 if resolved_member['type'] == 'BIT STRING':
                     self.pre_process_default_value_bit_string(member,
                                                               resolved_member)
